@@ -423,6 +423,27 @@ pub fn generate(rng: &mut Rng, tier: &str, w: &mut CaseWriter) {
         }
     }
 
+    // -- keyed lookups among INFO keys that are prefixes / suffixes / superstrings of one another
+    //    (and of END / SVLEN / AC), decoys placed before the real key, key text inside values
+    for ver in VERS {
+        for t in OVL_FIXED {
+            w.push("ovl", vec![ver.to_string(), hex(t.as_bytes())]);
+        }
+    }
+    for _ in 0..(200 * k) {
+        let ver = *rng.pick(VERS);
+        let n = rng.range(2, 6) as usize;
+        let mut keys: Vec<usize> = vec![];
+        while keys.len() < n {
+            let i = rng.below(OVL_POOL.len() as u64) as usize;
+            if !keys.contains(&i) {
+                keys.push(i);
+            }
+        }
+        let fields: Vec<String> = keys.iter().map(|&i| ovl_field(rng, i)).collect();
+        w.push("ovl", vec![ver.to_string(), hex(fields.join(";").as_bytes())]);
+    }
+
     // -- whole records and headers (implementation-only oracles)
     let nrec = if thorough { 6000 } else { 700 };
     for i in 0..nrec {
@@ -471,6 +492,146 @@ const BAD_LINES: &[&str] = &[
 ];
 
 // -------------------------------------------------------------------------------------------
+// ovl: lazy keyed lookup (Info::get, hence variant_end / variant_span) among overlapping keys
+
+/// (key, Number, Type); END / SVLEN / AC / CIEND carry their reserved definitions
+const OVL_POOL: &[(&str, &str, &str)] = &[
+    ("END", "1", "I"), ("MATEEND", "1", "I"), ("CIEND", "2", "I"), ("XEND", "1", "I"), ("ENDX", "1", "I"),
+    ("EN", "1", "I"), ("E", "1", "I"), ("END2", "1", "I"), ("ENDFLAG", "0", "B"), ("BEND", "1", "S"),
+    ("SVLEN", "-", "I"), ("XSVLEN", ".", "I"), ("SVLENX", "1", "I"), ("LEN", "1", "I"), ("SV", "1", "S"),
+    ("AC", "A", "I"), ("MLEAC", "A", "I"), ("ACX", "1", "I"), ("XAC", "1", "F"), ("A", "1", "C"),
+    ("XS", "1", "S"), ("DESC", ".", "S"),
+];
+
+const OVL_FIXED: &[&str] = &[
+    "MATEEND=150;END=200",
+    "CIEND=-10,10;END=200",
+    "XEND=120;END=200",
+    "ENDX=120;END=200",
+    "END2=120;END=200",
+    "ENDFLAG;END=200",
+    "BEND=END;END=200",
+    "XS=END%3D150;END=200",
+    "XS=%3BEND%3D150;END=200",
+    "DESC=END,SVLEN,AC;END=200;SVLEN=77;AC=3",
+    "EN=120;E=130;END=200",
+    "END=200;MATEEND=150",
+    "MATEEND=150",
+    "CIEND=-10,10",
+    "XS=END",
+    "MLEAC=9;AC=3",
+    "XAC=0.5;ACX=7;AC=3",
+    "A=c;AC=3",
+    "XSVLEN=900,901;SVLEN=50",
+    "SVLENX=900;SVLEN=50",
+    "SV=SVLEN;LEN=700;SVLEN=50",
+    "XSVLEN=900",
+    "SVLENX=900;END=200",
+    "MATEEND=.;END=200",
+    "MATEEND=150;END=.",
+    "XEND=300;MATEEND=150;CIEND=1,2;ENDX=7;END=200;END2=9",
+];
+
+fn ovl_field(rng: &mut Rng, i: usize) -> String {
+    let (k, num, ty) = OVL_POOL[i];
+    if ty == "B" {
+        return k.to_string();
+    }
+    if rng.chance(1, 10) {
+        return format!("{k}=.");
+    }
+    let one = |rng: &mut Rng| match ty {
+        "I" => match k {
+            "END" => rng.range(100, 5000).to_string(),
+            "SVLEN" | "LEN" => rng.range(0, 5000).to_string(),
+            _ => (rng.range(0, 9000) as i64 - 200).to_string(),
+        },
+        "F" => format!("{}", rng.range(0, 1000) as f32 / 8.0),
+        "C" => ((b'a' + rng.below(26) as u8) as char).to_string(),
+        _ => rng
+            .pick(&["END", "END%3D150", "%3BEND%3D150", "SVLEN", "SVLEN%3D9", "AC", "AC%3D1", "x", "MATEEND", "LEN%3D5"])
+            .to_string(),
+    };
+    let n = match num {
+        "1" => 1,
+        "2" => 2,
+        _ => rng.range(1, 3) as usize,
+    };
+    let vals: Vec<String> = (0..n).map(|_| one(rng)).collect();
+    format!("{k}={}", vals.join(","))
+}
+
+pub fn run_ovl(c: &Case) -> Obs {
+    let ver = c.args[0].as_str();
+    let info_text = String::from_utf8(unhex(&c.args[1])).expect("ascii");
+    let infos: Vec<(String, String, String)> = OVL_POOL
+        .iter()
+        .map(|(k, n, t)| (k.to_string(), if *n == "-" { svlen_number(ver).to_string() } else { n.to_string() }, t.to_string()))
+        .collect();
+    let header = match mk_header(ver, &infos, &[], &[]) {
+        Ok(h) => h,
+        Err(e) => return Obs::fail("-", "ovl-header-unparsable", format!("{e}")),
+    };
+    let line = format!("sq0\t100\t.\tACGT\t<DEL>\t.\t.\t{info_text}");
+    let fail = |tag: String, d: String| Obs::fail("-", &tag, d);
+    let rb = match read_eager(&header, &line) {
+        R::Ok(r) => r,
+        R::Err => return fail("ovl-unreadable-eager".into(), line),
+        R::Panic => return fail("ovl-reader-panic-eager".into(), line),
+    };
+    let lrec = match read_lazy(&line) {
+        R::Ok(r) => r,
+        R::Err => return fail("ovl-unreadable-lazy".into(), line),
+        R::Panic => return fail("ovl-reader-panic-lazy".into(), line),
+    };
+    // every key of the pool, present or not: lazy Info::get (inherent and through the trait) vs
+    // the eager map
+    let li = lrec.info();
+    for (k, _, _) in OVL_POOL {
+        let want: Option<OV> = rb.info().get(*k).map(|o| o.map(from_binfo));
+        let got = g(|| match li.get(&header, k) {
+            None => Ok(None),
+            Some(Ok(Some(v))) => from_linfo(v).map(|x| Some(Some(x))),
+            Some(Ok(None)) => Ok(Some(None)),
+            Some(Err(_)) => Err(()),
+        });
+        let tl: &dyn vcf::variant::record::Info = &li;
+        let got2 = g(|| match tl.get(&header, k) {
+            None => Ok(None),
+            Some(Ok(Some(v))) => from_linfo(v).map(|x| Some(Some(x))),
+            Some(Ok(None)) => Ok(Some(None)),
+            Some(Err(_)) => Err(()),
+        });
+        let show = |r: &R<Option<OV>>| match r {
+            R::Ok(None) => "absent".to_string(),
+            R::Ok(Some(v)) => spec(v),
+            R::Err => "Err".into(),
+            R::Panic => "Panic".into(),
+        };
+        for got in [&got, &got2] {
+            if !matches!(got, R::Ok(x) if *x == want) {
+                let present = if want.is_some() { "present" } else { "absent" };
+                return fail(
+                    format!("info-get-lazy-ne-eager-overlapping-keys-{present}"),
+                    format!("{info_text} :: get({k}) lazy={} eager={}", show(got), show(&R::Ok(want.clone()))),
+                );
+            }
+        }
+    }
+    // iteration still agrees with the map
+    match g(|| canon_lazy(&header, &lrec).map_err(|_| ())) {
+        R::Ok(cn) if cn.info == canon(&rb).info => {}
+        _ => return fail("ovl-info-iter-lazy-ne-eager".into(), line),
+    }
+    // spans through the trait
+    let (se, sl) = (span_of_pub(&header, &rb), span_of_pub(&header, &lrec));
+    if se != sl {
+        return fail(format!("span-lazy-ne-eager-overlapping-keys-v{ver}"), format!("{info_text} :: eager {se} lazy {sl}"));
+    }
+    Obs::ok("-", true)
+}
+
+// -------------------------------------------------------------------------------------------
 // rec: generated header + record
 
 struct Gen {
@@ -508,6 +669,14 @@ fn gen_record(rng: &mut Rng, ver: &str, feat: u64) -> Gen {
     }
     if with_svlen {
         infos.push(("SVLEN".into(), svlen_number(ver).into(), "I".into()));
+    }
+    if rng.chance(1, 3) {
+        // keys that contain / are contained in END and SVLEN (keyed lookups must not confuse them)
+        for (k, n) in [("MATEEND", "1"), ("ENDX", "1"), ("XSVLEN", "."), ("EN", "1")] {
+            if rng.chance(1, 2) {
+                infos.push((k.into(), n.into(), "I".into()));
+            }
+        }
     }
     let nsamples = if rng.chance(1, 4) { 0 } else { rng.range(1, 3) as usize };
     let with_gt = rng.chance(2, 3);
